@@ -123,3 +123,23 @@ func VT_C11_CollectionPullReader() {
 	wg.Wait()
 	vt.Reach("done")
 }
+
+// A conditional Delete (expected value and check, both evaluated outside the lock) racing an Update of the same id.
+func VT_C11_CollectionConditionalDeleteVsUpdate() {
+	c := NewCollection(WithInitialRecord("x", &T11{DefaultInt32: 1}))
+	var wg sync.WaitGroup
+	wg.Add(2)
+	go func() {
+		defer wg.Done()
+		c.Delete("x", WithExpectedValue(&T11{DefaultInt32: 1}), WithExpectedCheck(func(m proto.Message) error {
+			_ = proto.Clone(m)
+			return nil
+		}))
+	}()
+	go func() {
+		defer wg.Done()
+		c.Update("x", &T11{DefaultInt32: 2})
+	}()
+	wg.Wait()
+	vt.Reach("done")
+}
